@@ -9,7 +9,7 @@
     the method read back from the emitted Go over the complete cross product of
     the property (thorough tier): C11_contract_full_statement stays a per-case
     decision because text/template execution is not modelled. *)
-From Verif Require Import Model.Compile Spec.Contract Judge.J11 Proofs.MetaFacts.
+From Verif Require Import Model.Compile Model.CompileFiles Spec.Contract Judge.J11 Proofs.MetaFacts Proofs.CompileFilesFacts.
 Open Scope string_scope.
 Open Scope list_scope.
 
@@ -32,6 +32,15 @@ Theorem C11_duplicate : forall e src pos raw rest seen q,
   exists m, hd (Ok None) (parse_file e src pos (raw :: rest) seen) = Err m.
 Proof. exact duplicate_name_rejected. Qed.
 Print Assumptions C11_duplicate.
+
+(** over all query files of a package (Model/CompileFiles.v): the names of the
+    queries a run accepts are pairwise distinct - no two methods of one name -
+    and every statement of every file contributes exactly one entry (a query, a
+    diagnostic or, for an unsupported statement kind, nothing): C17_files_order *)
+Theorem C11_accepted_names_distinct : forall e p files,
+  NoDup (names_of (map snd (parse_files e p files []))).
+Proof. intros e p files. rewrite <- (app_nil_r (names_of _)). apply parse_files_names_nodup. constructor. Qed.
+Print Assumptions C11_accepted_names_distinct.
 
 Definition C11_contract_full_statement : Prop :=
   forall cmd prepared (m : method_shape), mem_str cmd commands = true ->
